@@ -33,7 +33,7 @@ def plan(tier, seed):
 def required(tier):
     r = {"fold-data": 50, "fold-mask": 50, "fold-total": 50, "fold-mirror-invariant": 50, "fold-idempotent": 50,
             "misid-convex": 50, "mixed-folding-refused": 50, "binop-attrs": 200, "iop-attrs": 100, "slice-attrs": 50,
-            "ll-keeps-attrs": 10, "ll-result-mask-is-union": 10, "refused-operation-changes-nothing": 50, "autofold-equals-explicit-fold": 10}
+            "ll-keeps-attrs": 10, "ll-result-mask-is-union": 10, "refused-operation-changes-nothing": 50, "result-mask-is-its-own": 30, "autofold-equals-explicit-fold": 10}
     r.update({'ambient-fold': 20, 'ambient-fold-mask': 20})
     return r
 
@@ -208,6 +208,15 @@ def run(spec, rec):
                                   expected={"folded": folded, "pop_ids": exp_ids})
                         if good and okm:
                             rec.close("binop-data", err, TOL, site=site, tags=tags)
+                            # masks survive arithmetic as *values*: the result has a mask of its own -- hiding an entry of the result
+                            # afterwards hides nothing in the operand, and the other way round
+                            free = np.argwhere(~rm)
+                            if len(free) and oname in ("scalar", "ndarray") and opname in ("add", "mul"):
+                                idx = tuple(int(v) for v in free[int(rng.integers(len(free)))])
+                                am0 = np.asarray(a.mask).copy()
+                                res.mask[idx] = True
+                                rec.check("result-mask-is-its-own", np.array_equal(np.asarray(a.mask), am0), site=site, tags=tags)
+                                a.mask = am0.copy()
                 for opname, op in IOPS:
                     tags = {"op": opname, "other": oname, "folded": folded}
                     site = "Spectrum.__%s__" % opname
